@@ -205,9 +205,15 @@ NF(M, gv) == IF gv.t # "st" THEN NFg(gv) ELSE NFEmbeds(M, 1, NFFields(M, 1, gv, 
 \* custom-type fields are converted by the user's hooks, not by the generator: masked
 RECURSIVE MaskCustomGo(_, _, _)
 MaskCustomGo(M, i, g) ==
-  IF i > Len(M.fields) THEN g
+  IF i > Len(M.fields) \/ g.t # "st" THEN g
   ELSE LET F == M.fields[i]
-       IN MaskCustomGo(M, i + 1, IF F.kind = "custom" /\ F.oneof = "" /\ CanSet(g, F.gopath) THEN SetPath(g, F.gopath, Nil) ELSE g)
+           settable == F.oneof = "" /\ CanSet(g, F.gopath)
+           val == IF settable THEN GetPath(g, F.gopath) ELSE Nil
+       IN MaskCustomGo(M, i + 1,
+            IF F.kind = "custom" /\ settable THEN SetPath(g, F.gopath, Nil)
+            ELSE IF F.kind = "obj" /\ settable /\ val.t = "ptr" THEN SetPath(g, F.gopath, Ptr(MaskCustomGo(SubOf(F), 1, val.p)))
+            ELSE IF F.kind = "obj" /\ settable /\ val.t = "st" THEN SetPath(g, F.gopath, MaskCustomGo(SubOf(F), 1, val))
+            ELSE g)
 
 \* per-unit differences between two normal forms of the same message
 RtDiff(c, M, orig, a, b) ==
@@ -619,38 +625,56 @@ C09Idem(ctx) == IF ctx.pn \/ ctx.after = ctx.before THEN {} ELSE {VG("C09.idempo
 
 CustomIdx(M) == {i \in DOMAIN M.fields : M.fields[i].kind = "custom"}
 CallsOf(hooks, kind, suffix) == {i \in DOMAIN hooks : hooks[i].hook = kind /\ hooks[i].suffix = suffix}
+\* does the message contain custom-type fields, also below singular nested messages?
+RECURSIVE HasCustom(_)
+HasCustom(M) == \E i \in DOMAIN M.fields : M.fields[i].kind = "custom" \/ (M.fields[i].kind = "obj" /\ HasCustom(SubOf(M.fields[i])))
+
+\* M: built message, obj: source struct, pre / tf: target object before / after (at this level)
+RECURSIVE C17ToAt(_, _, _, _, _, _)
+C17ToAt(M, obj, pre, tf, hooks, dg) ==
+  IF pre.k # "obj" \/ tf.k # "obj" \/ obj.t # "st" THEN {} ELSE
+  UNION {
+    LET F == M.fields[i]
+        calls == CallsOf(hooks, "CopyTo", F.suffix)
+        typed == F.attr \in DOMAIN pre.at
+        cur == IF ~pre.attrsnil /\ F.attr \in DOMAIN pre.attrs THEN pre.attrs[F.attr] ELSE VNilIf
+        src == SrcVal(F, obj)
+    IN IF F.kind = "obj" /\ F.oneof = "" THEN
+          \* a singular nested message: its custom fields are delegated as well (when the source reaches it)
+          (IF src.t \in {"ptr", "st"} /\ typed /\ pre.at[F.attr].k = "obj" /\ AttrOf(tf, F).k = "obj"
+           THEN C17ToAt(SubOf(F), Deref(src), IF cur.k = "obj" THEN cur ELSE EmptyObject(pre.at[F.attr].at), AttrOf(tf, F), hooks, dg)
+           ELSE {})
+       ELSE IF F.kind # "custom" THEN {}
+       ELSE IF ~typed THEN (IF calls # {} THEN {V("C17.to_call", F, "called without attribute type")} ELSE {})
+                      \cup (IF HasDiag(dg, "writeMissing", F.path) THEN {} ELSE {V("C17.missing_diag", F, "write")})
+       ELSE IF Cardinality(calls) # 1 THEN {V("C17.to_call", F, "not called exactly once")}
+       ELSE LET h == hooks[CHOOSE k \in calls : TRUE]
+            IN (IF h.field # src THEN {V("C17.to_call", F, "field value")} ELSE {})
+               \cup (IF h.type # pre.at[F.attr] THEN {V("C17.to_call", F, "attribute type")} ELSE {})
+               \cup (IF h.cur # cur THEN {V("C17.to_call", F, "current value")} ELSE {})
+               \cup (IF AttrOf(tf, F) # h.ret THEN {V("C17.to_stored", F, "")} ELSE {})
+    : i \in DOMAIN M.fields }
 
 \* ctx: [M, obj (source), pre (target before), tf (target after), hooks, dg, pn]
-C17To(ctx) ==
-  IF ctx.pn THEN {} ELSE
+C17To(ctx) == IF ctx.pn THEN {} ELSE C17ToAt(ctx.M, ctx.obj, ctx.pre, ctx.tf, ctx.hooks, ctx.dg)
+
+RECURSIVE C17FromAt(_, _, _, _)
+C17FromAt(M, tf, hooks, dg) ==
+  IF tf.k # "obj" THEN {} ELSE
   UNION {
-    LET F == ctx.M.fields[i]
-        calls == CallsOf(ctx.hooks, "CopyTo", F.suffix)
-        typed == F.attr \in DOMAIN ctx.pre.at
-        cur == IF ~ctx.pre.attrsnil /\ F.attr \in DOMAIN ctx.pre.attrs THEN ctx.pre.attrs[F.attr] ELSE VNilIf
-        src == SrcVal(F, ctx.obj)
-    IN IF ~typed THEN (IF calls # {} THEN {V("C17.to_call", F, "called without attribute type")} ELSE {})
-                      \cup (IF HasDiag(ctx.dg, "writeMissing", F.path) THEN {} ELSE {V("C17.missing_diag", F, "write")})
-       ELSE IF Cardinality(calls) # 1 THEN {V("C17.to_call", F, "not called exactly once")}
-       ELSE LET h == ctx.hooks[CHOOSE k \in calls : TRUE]
-            IN (IF h.field # src THEN {V("C17.to_call", F, "field value")} ELSE {})
-               \cup (IF h.type # ctx.pre.at[F.attr] THEN {V("C17.to_call", F, "attribute type")} ELSE {})
-               \cup (IF h.cur # cur THEN {V("C17.to_call", F, "current value")} ELSE {})
-               \cup (IF AttrOf(ctx.tf, F) # h.ret THEN {V("C17.to_stored", F, "")} ELSE {})
-    : i \in CustomIdx(ctx.M) }
+    LET F == M.fields[i]
+        calls == CallsOf(hooks, "CopyFrom", F.suffix)
+        present == ~tf.attrsnil /\ F.attr \in DOMAIN tf.attrs
+        a == IF present THEN tf.attrs[F.attr] ELSE VNilIf
+    IN IF F.kind = "obj" /\ F.oneof = "" THEN (IF present /\ a.k = "obj" /\ Known(a) THEN C17FromAt(SubOf(F), a, hooks, dg) ELSE {})
+       ELSE IF F.kind # "custom" THEN {}
+       ELSE (IF Cardinality(calls) # 1 THEN {V("C17.from_call", F, "not called exactly once")}
+             ELSE LET h == hooks[CHOOSE k \in calls : TRUE]
+                  IN (IF h.value # a THEN {V("C17.from_call", F, "attribute value")} ELSE {})
+                     \cup (IF ~h.isptr THEN {V("C17.from_call", F, "not a pointer to the field")} ELSE {}))
+            \cup (IF ~present /\ ~HasDiag(dg, "readMissing", F.path) THEN {V("C17.missing_diag", F, "read")} ELSE {})
+    : i \in DOMAIN M.fields }
 
 \* ctx: [M, tf (input), hooks, dg, pn]
-C17From(ctx) ==
-  IF ctx.pn THEN {} ELSE
-  UNION {
-    LET F == ctx.M.fields[i]
-        calls == CallsOf(ctx.hooks, "CopyFrom", F.suffix)
-        a == IF ctx.tf.k = "obj" /\ ~ctx.tf.attrsnil /\ F.attr \in DOMAIN ctx.tf.attrs THEN ctx.tf.attrs[F.attr] ELSE VNilIf
-        missing == ~(ctx.tf.k = "obj" /\ ~ctx.tf.attrsnil /\ F.attr \in DOMAIN ctx.tf.attrs)
-    IN (IF Cardinality(calls) # 1 THEN {V("C17.from_call", F, "not called exactly once")}
-        ELSE LET h == ctx.hooks[CHOOSE k \in calls : TRUE]
-             IN (IF h.value # a THEN {V("C17.from_call", F, "attribute value")} ELSE {})
-                \cup (IF ~h.isptr THEN {V("C17.from_call", F, "not a pointer to the field")} ELSE {}))
-       \cup (IF missing /\ ~HasDiag(ctx.dg, "readMissing", F.path) THEN {V("C17.missing_diag", F, "read")} ELSE {})
-    : i \in CustomIdx(ctx.M) }
+C17From(ctx) == IF ctx.pn THEN {} ELSE C17FromAt(ctx.M, ctx.tf, ctx.hooks, ctx.dg)
 =============================================================================
